@@ -24,11 +24,15 @@ CLAIMED = {
         "dict_get (HashMap) and the parser's slice syntax are outside.",
    ref="DESIGN.md section 4, C05"),
  "C07": dict(
-   cat="model_checking", tech="Kani/CBMC over the policy + adapters (all enum combinations symbolic); enum-level MIR->SMT for lowering/emission result types",
+   cat="model_checking", tech="enum-level symbolic execution of rustc MIR + SMT (own encoder, z3/cvc5) for adapters, lowering, emission plan and the type checker's rule bodies; Kani/CBMC for the policy and exponent classifiers",
    text="Solver-based: the shared numeric policy (result_numeric_type, needs_float_promotion, from_literal_info), the four operator/type adapters and the "
-        "three exponent classifiers are decided against the documented table for every operator x operand-kind x exponent-kind combination and every i64 literal.",
-   note="Kernel claim: the type checker's own traversal (check_binary, compound assignment, const evaluator), nesting, and rustc's typing of the emitted "
-        "expression are not encoded; the claim is that every phase's shared table/adapters agree with the documented table.",
+        "three exponent classifiers are decided against the documented table for every operator x operand-kind x exponent-kind combination and every i64 literal "
+        "(Kani); the IR-side adapters, lowering's lower_binop/binary_result_type, the emitter's determine_binop_plan (result type, conversions, emission form) "
+        "and the rule bodies of the type checker's check_binary and compound-assignment arm are symbolically executed from the whole-crate MIR with every enum "
+        "tag symbolic and decided by z3/cvc5; models are replayed natively (plan) or as generated programs through the public type-check API.",
+   note="The checker/lowering traversals themselves (recursion over sub-expressions, scopes) are summarised by arbitrary operand types, i.e. each rule is "
+        "decided for all operand types but nesting is not executed; the const evaluator and rustc's typing of the emitted expression are not encoded; "
+        "exponent parentheses up to depth 2.",
    ref="DESIGN.md section 4, C07"),
  "C11": dict(
    cat="model_checking", tech="bounded model checking of the compiled code (Kani/CBMC, symbolic UTF-8 source and span)",
